@@ -135,6 +135,12 @@ func (u *urna) relabel(dst, src []*Statement) ([]*Statement, error) {
 	// https://json-ld.github.io/rdf-dataset-canonicalization/spec/index.html#dfn-hash-to-blank-nodes-map
 	var termsFor map[string][]string // 1.
 
+	// blanks holds the blank node identifiers in the order
+	// of their first appearance in src. It is used to visit
+	// the identifiers in an order that does not depend on
+	// map iteration.
+	var blanks []string
+
 	for _, s := range src { // 2.
 	terms:
 		for _, t := range []string{
@@ -149,6 +155,9 @@ func (u *urna) relabel(dst, src []*Statement) ([]*Statement, error) {
 				if e == s {
 					continue terms
 				}
+			}
+			if _, ok := u.statementsFor[t]; !ok {
+				blanks = append(blanks, t)
 			}
 			u.statementsFor[t] = append(u.statementsFor[t], s)
 		}
@@ -166,7 +175,10 @@ func (u *urna) relabel(dst, src []*Statement) ([]*Statement, error) {
 
 		termsFor = make(map[string][]string) // 5.2
 
-		for b := range todo { // 5.3
+		for _, b := range blanks { // 5.3
+			if !todo[b] {
+				continue
+			}
 			hash := u.hashFirstDegreeQuads(b)          // 5.3.1
 			termsFor[hash] = append(termsFor[hash], b) // 5.3.2
 		}
